@@ -26,7 +26,8 @@ Definition cones_eqb (a b : list cone) : bool := leqb cone_eqb a b.
 Definition first_fail (l : list (bool * N)) : N :=
   fold_right (fun (bc : bool * N) (acc : N) => if fst bc then acc else snd bc) 0%N l.
 
-(** codes: 31 H, 32 A, 33 b, 34 cones, 35 reversed s, 36 reversed z, 37 lengths, 38 cone maps *)
+(** codes: 31 H, 32 A, 33 b, 34 cones, 35 reversed s, 36 reversed z, 37 lengths, 38 cone maps,
+    40 layout violates the hypotheses of the telescoping theorem (tie joins rows of different entries) *)
 Definition c18_std (cones : list cone) (trees : list (N * tree)) (Acols : list scol) (b : list Z)
            (HI' : list N) (A' : list scol) (b' : list Z) (cones' : list cone)
            (s1 z1 srev zrev : list Z) : N :=
@@ -56,6 +57,43 @@ Definition map_eqb (a b : N * option (N * N)) : bool :=
   | _, _ => false
   end.
 
+(** ** hypotheses of [Equiv.cmp_primal_equiv] checked on the layout: original row of every new
+    row of a decomposed cone (overlap entries included), and "every overlap tie joins two new
+    rows of the same original entry" *)
+Definition cone_origs (t : tree) (row0 rowptr : N) : list (N * N) :=
+  let lay := layout t (desc_positions t) rowptr in
+  let nv := N.of_nat (length (ordering t)) in
+  flat_map (fun i =>
+    let c := nth i (post t) 0%N in
+    let st := start_of lay c in
+    let bi := block_indices (osn t c) (osp t c) nv in
+    map (fun ke : nat * (N * N * bool) => let '(k, (i0, j0, _)) := ke in
+           ((st + N.of_nat k)%N, (row0 + TriIndex.coord_to_idx (i0, j0))%N))
+        (combine (seq 0 (length bi)) bi)) (desc_positions t).
+Fixpoint cmp_origs (cones : list cone) (trees : list (N * tree)) (idx row0 rowptr : N) : list (N * N) :=
+  match cones with
+  | [] => []
+  | c :: r =>
+      let '(here, used) :=
+        match find_tree trees idx with
+        | Some t => (cone_origs t row0 rowptr, tree_rows t)
+        | None => (map (fun i => ((rowptr + N.of_nat i)%N, (row0 + N.of_nat i)%N)) (seq 0 (N.to_nat (cone_rows c))), cone_rows c)
+        end in
+      here ++ cmp_origs r trees (idx + 1) (row0 + cone_rows c) (rowptr + used)
+  end.
+Definition orig_of (og : list (N * N)) (i : N) : option N :=
+  match find (fun e => N.eqb (fst e) i) og with Some e => Some (snd e) | None => None end.
+Definition opt_eqb (a b : option N) : bool :=
+  match a, b with Some x, Some y => N.eqb x y | _, _ => false end.
+(** every new row has exactly one original row; ties join rows of the same original row; the
+    row map sends an original row to a new row that belongs to it *)
+Definition cmp_struct_ok (cones : list cone) (trees : list (N * tree)) : bool :=
+  let og := cmp_origs cones trees 0 0 0 in
+  let lo := cmp_layout cones trees 0 0 0 in
+  nl_eqb (map fst og) (nseq 0 (cmp_total_rows cones trees))
+  && forallb (fun tie => opt_eqb (orig_of og (fst tie)) (orig_of og (snd tie)) && negb (N.eqb (fst tie) (snd tie))) (snd lo)
+  && forallb (fun rm => opt_eqb (orig_of og (snd rm)) (Some (fst rm))) (fst lo).
+
 Definition c18_cmp (cones : list cone) (trees : list (N * tree)) (Acols : list scol) (b : list Z)
            (maps' : list (N * option (N * N))) (A' : list scol) (b' : list Z) (cones' : list cone)
            (s1 z1 srev zrev : list Z) : N :=
@@ -67,6 +105,7 @@ Definition c18_cmp (cones : list cone) (trees : list (N * tree)) (Acols : list s
   let zeros := repeat 0%Z (N.to_nat m) in
   let rv := cmp_reverse cones trees 0 0 0 s1 z1 (zeros, zeros) in
   first_fail [
+    (cmp_struct_ok cones trees, 40%N);
     (leqb map_eqb maps' (expected_maps cones trees), 38%N);
     (forallb (fun o => match o with Some _ => true | None => false end) mc
      && cols_eqb A' (flat_map (fun o => match o with Some c => [c] | None => [] end) mc ++ map ov_col (snd lo)), 32%N);
